@@ -138,7 +138,7 @@ func (r *runner) stepC(c *dh.Cmd, silent bool) (accepted bool, class string) {
 			res = o.wr
 			accepted = o.wr.Class == "ok"
 			class = o.wr.Class
-		case <-time.After(5 * dh.Watchdog):
+		case <-time.After(3 * dh.Watchdog):
 			res = dh.WriteRes{Class: "hung"}
 			hung = true
 		}
